@@ -781,11 +781,15 @@ impl Th {
             K::NewChain => {
                 // a chain of 2*(a+1) fresh nodes linked through edge 0 (unstamped links), the head
                 // lands in an Rc slot; long chains make a disposal span several re-pins
-                let len = 2 * (op.a as usize + 1);
+                // (b adds 256 nodes each; c > 0 additionally yields a Weak to the node that is
+                // 1024 + c - 4 links away from the head: the neighbourhood of the recursion cap)
+                let len = 2 * (op.a as usize + 1) + 256 * op.b as usize;
+                let weak_at = if op.c > 0 { Some((1020 + op.c as usize).min(len - 1)) } else { None };
+                let mut kept_weak = None;
                 let mut next: Option<Rc<VNode>> = None;
                 let mut next_rank = 900_000u32;
                 let mut head_id = 0;
-                for _ in 0..len {
+                for built in 0..len {
                     let id = with(|s| s.reserve()) as u32;
                     let node = VNode {
                         id,
@@ -802,10 +806,18 @@ impl Th {
                     let p = rc.as_ref().unwrap() as *const VNode;
                     self.register(circ::verif::rc_word(&rc), p);
                     head_id = id;
+                    // nodes are built tail first: the one built as number `built` ends up
+                    // len - 1 - built links away from the head
+                    if weak_at == Some(len - 1 - built) {
+                        kept_weak = Some(rc.downgrade());
+                    }
                     next = Some(rc);
                 }
                 self.log(format!("new_chain(head obj{}, {} nodes)", head_id, len));
                 self.put_rc(next.unwrap(), "new");
+                if let Some(w) = kept_weak {
+                    self.put_weak(w);
+                }
                 true
             }
             K::NewMany2 | K::NewMany3 => {
